@@ -75,8 +75,14 @@ void length_v(const T *p, int, pbt::Ctx &)
 // Newton step: error <= 1.5 e^2 ~ 2^-22.2 = 1.7 eps, plus 4 roundings in the step, plus the above: < 8 eps;
 // 16 eps * |component| is used for float (measured worst case of rsqrt alone in this project: 2^-22.25).
 template <class T, class S, bool SAFE>
-void normalize_impl(const T *p, pbt::Ctx &ctx)
+void normalize_impl(const T *p0, int m, pbt::Ctx &ctx)
 {
+  T p[16];
+  for (int i = 0; i < 16; ++i)
+    p[i] = p0[i];
+  if (SAFE && (m & 3) == 0)  // a quarter of the safe_normalize cases: an exactly down-scaled (tiny) vector
+    for (int i = 0; i < 4; ++i)
+      p[i] = std::ldexp(p0[i], -40);
   auto v = mk<T, S>(p, p[14]);
   typename S::template V<T> r;
   if constexpr (SAFE)
@@ -106,9 +112,9 @@ void normalize_impl(const T *p, pbt::Ctx &ctx)
   }
 }
 template <class T, class S>
-void normalize_v(const T *p, int, pbt::Ctx &c) { normalize_impl<T, S, false>(p, c); }
+void normalize_v(const T *p, int m, pbt::Ctx &c) { normalize_impl<T, S, false>(p, m, c); }
 template <class T, class S>
-void safe_normalize_v(const T *p, int, pbt::Ctx &c) { normalize_impl<T, S, true>(p, c); }
+void safe_normalize_v(const T *p, int m, pbt::Ctx &c) { normalize_impl<T, S, true>(p, m, c); }
 
 // interpolate_uv(f,a,b,c) = f.x*a + f.y*b + f.z*c, f is always an unpadded 3-vector.  f = p[12..14]
 template <class T, class S>
